@@ -77,20 +77,32 @@ func (f *fAdapterTransport) Open() error {
 		}
 	}
 
-	go f.readLoop()
+	// Every session gets its own close signal: a token left behind by a
+	// previous session (its read loop initiated the close, so nobody consumed
+	// it) must neither block a later close() nor be mistaken by the new read
+	// loop for a local close.
+	f.closeSignal = make(chan struct{}, 1)
+	go f.readLoop(f.closeSignal)
 	f.isOpen = true
 	f.closeChan = make(chan error, 1)
 	return nil
 }
 
-func (f *fAdapterTransport) readLoop() {
+func (f *fAdapterTransport) readLoop(closeSignal chan struct{}) {
 	framedTransport := NewTFramedTransport(f.transport)
 	for {
+		// A read loop that has outlived its session (the transport was
+		// closed and opened again before it got here) must not read from
+		// the reopened transport.
+		if !f.ownsSession(closeSignal) {
+			return
+		}
+
 		frame, err := f.readFrame(framedTransport)
 		if err != nil {
 			// First check if the transport was closed.
 			select {
-			case <-f.closeSignal:
+			case <-closeSignal:
 				// Transport was closed.
 				return
 			default:
@@ -98,23 +110,31 @@ func (f *fAdapterTransport) readLoop() {
 
 			if err, ok := err.(thrift.TTransportException); ok && err.TypeId() == TRANSPORT_EXCEPTION_END_OF_FILE {
 				// EOF indicates remote peer disconnected.
-				f.Close()
+				f.closeSession(closeSignal, nil)
 				return
 			}
 
 			logger().Error("frugal: error reading protocol frame, closing transport: ", err)
-			f.close(err)
+			f.closeSession(closeSignal, err)
 			return
 		}
 
 		if err := f.registry.Execute(frame); err != nil {
 			// An error here indicates an unrecoverable error, teardown transport.
 			logger().Error("frugal: closing transport due to unrecoverable error processing frame: ", err)
-			f.close(err)
+			f.closeSession(closeSignal, err)
 			return
 		}
 		verifHook("readloop.frame.done", 0)
 	}
+}
+
+// ownsSession reports whether the session identified by its close signal is
+// still the transport's current one.
+func (f *fAdapterTransport) ownsSession(closeSignal chan struct{}) bool {
+	f.mu.RLock()
+	defer f.mu.RUnlock()
+	return f.closeSignal == closeSignal
 }
 
 func (f *fAdapterTransport) readFrame(framedTransport *TFramedTransport) ([]byte, error) {
@@ -143,10 +163,17 @@ func (f *fAdapterTransport) Close() error {
 }
 
 func (f *fAdapterTransport) close(cause error) error {
+	return f.closeSession(nil, cause)
+}
+
+// closeSession closes the transport. A non-nil session restricts the close to
+// the session that owns that close signal: a read loop that outlived its
+// session must not close the one opened after it.
+func (f *fAdapterTransport) closeSession(session chan struct{}, cause error) error {
 	f.mu.Lock()
 	defer f.mu.Unlock()
 
-	if !f.isOpen {
+	if !f.isOpen || (session != nil && session != f.closeSignal) {
 		return thrift.NewTTransportException(TRANSPORT_EXCEPTION_NOT_OPEN, "Transport not open")
 	}
 
